@@ -113,8 +113,11 @@ def machine_check(pid, tier, roots=None, kinds=("entry", "scanner"), level="proo
     })
     if explanation:
         c.coverage["explanation"] = explanation
-    for s in summ[:6]:
+    for s in summ[:3]:
         c.sample(s)
+    for r in all_results(results)[:3]:
+        for sp in (r.get("sample_paths") or [])[:2]:
+            c.sample({"abstract_path": sp, "root": r["job"]["root"]})
     if extra:
         extra(c, jobs, results)
     return c.finish()
@@ -296,6 +299,21 @@ def C13(tier):
             prof = "debug" if k in k1 else "release"
             c.violation("profile-dependent|%s|%s|%s|%s" % (prof, k[0], k[1], k[2]),
                         dict(rec, note="deviation from the reference only in the %s-profile MIR" % prof, rule="profile-dependent:" + k[0]))
+        if tier == "thorough":
+            # backend independence on whole parses: every build variant deviates from the reference
+            # exactly like the host default build (on the unchanged tree: not at all)
+            for cfg in ("B1", "B2", "B3", "B4", "B5"):
+                jobs3 = R.entry_jobs(cfg, "debug", roots=roots)
+                res3 = R.run_jobs(jobs3, budget=QUICK_BUDGET, th=th)
+                k3 = keyset(jobs3, res3)
+                for k in set(k1) ^ set(k3):
+                    rec = k1.get(k) or k3.get(k)
+                    who = "B0" if k in k1 else cfg
+                    c.violation("backend-dependent|%s|%s|%s|%s" % (who, k[0], k[1], k[2]),
+                                dict(rec, note="deviation from the reference only in build variant %s" % who, rule="backend-dependent:" + k[0]))
+                c.obligations += len(set(k1) | set(k3)) + 1
+                c.discharged += len(set(k1) & set(k3)) + 1
+                c.coverage.setdefault("build_variants", {})[cfg] = job_summary(jobs3, res3)
         c.obligations += len(set(k1) | set(k2)) + 1
         c.discharged += len(set(k1) & set(k2)) + 1
         n, ok, per = sum_obligations(res2)
